@@ -38,13 +38,15 @@ HookCfgs == {"unset", "nil", "noop", "custom"}
 \* "bws-stopped": the buffered sink was used and then Stop()ped before this call (shutdown path: no flush loop any
 \* more, Write still buffers, only Sync moves the bytes on).  "tee-fail-*": the first branch's sink fails its Write.
 \* "tee-on-sampledout": an accepting core followed by a core whose sampler drops the entry (the first must keep it).
-Cores == {"nop", "off", "on", "bws", "bws-stopped", "tee-on-on", "tee-off-on", "tee-on-bws", "tee-fail-on", "tee-fail-bws",
+\* bws-multi: the buffered sink sits in a multi-syncer next to a writer that reports a smaller count without an error
+\* (an adapter that trims the line ending): the count is nobody's business here, the entry is synced all the same
+Cores == {"nop", "off", "on", "bws", "bws-stopped", "bws-multi", "tee-on-on", "tee-off-on", "tee-on-bws", "tee-fail-on", "tee-fail-bws",
           "tee-on-sampledout", "sampled-out", "hooked-on", "inc-off"}
 Fails(c, i) == c \in {"tee-fail-on", "tee-fail-bws"} /\ i = 1
 LeavesOf(c) == CASE c = "nop" -> <<>>
                  [] c = "off" -> << [acc |-> FALSE, bws |-> FALSE] >>
                  [] c = "on"  -> << [acc |-> TRUE, bws |-> FALSE] >>
-                 [] c \in {"bws", "bws-stopped"} -> << [acc |-> TRUE, bws |-> TRUE] >>
+                 [] c \in {"bws", "bws-stopped", "bws-multi"} -> << [acc |-> TRUE, bws |-> TRUE] >>
                  [] c = "tee-fail-on"  -> << [acc |-> TRUE, bws |-> FALSE], [acc |-> TRUE, bws |-> FALSE] >>
                  [] c = "tee-fail-bws" -> << [acc |-> TRUE, bws |-> FALSE], [acc |-> TRUE, bws |-> TRUE] >>
                  [] c = "tee-on-on"  -> << [acc |-> TRUE, bws |-> FALSE], [acc |-> TRUE, bws |-> FALSE] >>
